@@ -27,7 +27,7 @@ func run(c *core.Ctx) {
 	c.Assume("credential attributes may be documented as parameters or only through the security scheme; OpenAPI 3 header parameters named Accept/Content-Type/Authorization are not demanded (the specification says they are ignored)")
 	c.Assume("scopes are not compared (the statement names schemes only)")
 	only := os.Getenv("VERIF_FAMILY")
-	for _, f := range families.All(c.Thorough()) {
+	for _, f := range c07Families(c.Thorough()) {
 		if only != "" && !strings.HasPrefix(f.Name, only) {
 			c.Incomplete("restricted to family " + only + " by VERIF_FAMILY (development aid)")
 			continue
@@ -68,6 +68,11 @@ func run(c *core.Ctx) {
 	if err := check.RunMode(c, corpus, "C07"); err != nil {
 		c.HarnessError("oa-routes: %v", err)
 	}
+}
+
+// c07Families: every shared family plus the required+default parameter family.
+func c07Families(thorough bool) []check.Family {
+	return append(families.All(thorough), families.RequiredDefault())
 }
 
 // fold adds one in-process result to the evidence exactly as check.RunMode does for driver output.
@@ -121,7 +126,7 @@ func replay(c *core.Ctx, path string) {
 		return
 	}
 	for _, thorough := range []bool{false, true} {
-		for _, f := range families.All(thorough) {
+		for _, f := range c07Families(thorough) {
 			if f.Name != cs.Corpus {
 				continue
 			}
